@@ -16,6 +16,7 @@ inductive Fault
   | nilFunc      -- call of a nil func value
   | explicit     -- `panic("out of bounds")` in `(*Bounds).Points`
   | badState     -- an iterator state of another type (unreachable: closures are typed)
+  | fuel         -- a translated `for` loop ran out of its bound (Go has none; proved not to happen)
 deriving Repr, DecidableEq, Inhabited
 
 /-- `math.Inf(1)` and `math.Inf(-1)` -/
